@@ -237,3 +237,28 @@ Proof.
   rewrite flat_map_nil; [|intros e He; now rewrite (no_orphans f p C Hp Hm e He)].
   cbn [app flat_map]. now rewrite app_nil_r.
 Qed.
+
+(* ---------------------------------------------------------------- replay respects permutations of the view *)
+Lemma filter_perm {A} (g : A -> bool) l l' : Permutation l l' -> Permutation (filter g l) (filter g l').
+Proof.
+  induction 1 as [|x l l' P IH|x y l|l l' l'' P1 IH1 P2 IH2]; cbn [filter].
+  - constructor.
+  - destruct (g x); [now constructor | exact IH].
+  - destruct (g x), (g y); try apply Permutation_refl. constructor.
+  - eapply Permutation_trans; eauto.
+Qed.
+
+Lemma replay1_perm v v' e : Permutation v v' -> Permutation (replay1 v e) (replay1 v' e).
+Proof.
+  intros P. destruct e; cbn [replay1].
+  - now apply Permutation_app_tail.
+  - now apply filter_perm.
+  - exact P.
+  - now apply Permutation_map.
+Qed.
+
+Lemma replay_perm es : forall v v', Permutation v v' -> Permutation (replay v es) (replay v' es).
+Proof.
+  induction es as [|e es IH]; intros v v' P; [exact P|].
+  cbn [replay fold_left]. apply IH. now apply replay1_perm.
+Qed.
